@@ -59,9 +59,34 @@ func (stubConfig) PrimitiveFromKey(k key.Key, _ internalapi.Token) (any, error) 
 	return &idealDeriver{k: fk, full: true}, nil
 }
 
+type dkeySerializer struct{}
+
+func (dkeySerializer) SerializeKey(k key.Key) (*protoserialization.KeySerialization, error) {
+	return serializeStubKey(k)
+}
+
+type dkeyParser struct{}
+
+func (dkeyParser) ParseKey(s *protoserialization.KeySerialization) (key.Key, error) {
+	return parseStubKey(s)
+}
+
+var dkeyRegistered bool
+
 func stubDerivedKeySerialization() {
 	// the registry-backed (de)serialization, for FKey (deriver keys) and dKey (derived keys)
-	verifrt.Summarize("internal/protoserialization.SerializeKey", func(k key.Key) (*protoserialization.KeySerialization, error) {
+	verifrt.Summarize("internal/protoserialization.SerializeKey", serializeStubKey)
+	verifrt.Summarize("internal/protoserialization.ParseKey", parseStubKey)
+	if !verifrt.Symbolic() && !dkeyRegistered {
+		// natively the same stubs are registered with the real registry
+		dkeyRegistered = true
+		protoserialization.RegisterKeySerializer[*dKey](dkeySerializer{})
+		protoserialization.RegisterKeyParser("type.googleapis.com/stub.Derived", dkeyParser{})
+	}
+}
+
+func serializeStubKey(k key.Key) (*protoserialization.KeySerialization, error) {
+	{
 		switch kk := k.(type) {
 		case *verifh.FKey:
 			req, _ := kk.IDRequirement()
@@ -71,8 +96,11 @@ func stubDerivedKeySerialization() {
 			return protoserialization.NewKeySerialization(&tinkpb.KeyData{TypeUrl: "type.googleapis.com/stub.Derived", Value: val, KeyMaterialType: tinkpb.KeyData_SYMMETRIC}, verifh.PrefixTypeOf(kk.kind), kk.id)
 		}
 		panic("unexpected key type")
-	})
-	verifrt.Summarize("internal/protoserialization.ParseKey", func(s *protoserialization.KeySerialization) (key.Key, error) {
+	}
+}
+
+func parseStubKey(s *protoserialization.KeySerialization) (key.Key, error) {
+	{
 		id, _ := s.IDRequirement()
 		kind := 3
 		switch s.OutputPrefixType() {
@@ -85,11 +113,10 @@ func stubDerivedKeySerialization() {
 		}
 		v := s.KeyData().GetValue()
 		return &dKey{from: int(v[0]), salt: append([]byte{}, v[1:]...), kind: kind, id: id}, nil
-	})
+	}
 }
 
 func VerifH_deriver_keyset() {
-	verifrt.NativeSkip("key (de)serialization is summarised")
 	max := 2
 	if verifrt.Thorough() {
 		max = 3
